@@ -11,7 +11,22 @@ import (
 	"qmc/rt"
 )
 
+func c06Ops(s []int) []ref.Op {
+	ops := []ref.Op{{K: "Reshape", Shape: []int{ref.Size(s)}}, {K: "UnSqueeze", Dim: 0}, {K: "UnSqueeze", Dim: len(s)}, {K: "Flatten", Dim: 0}, {K: "Slice"},
+		{K: "Slice", Index: []ref.Range{{From: 0, To: 1}}}, {K: "Broadcast", Shape: append([]int{2}, s...)}, {K: "Concat", Dim: 0}, {K: "Concat", Dim: len(s) - 1}}
+	full := make([]ref.Range, len(s))
+	for i, d := range s {
+		full[i] = ref.Range{From: d - 1, To: d}
+	}
+	ops = append(ops, ref.Op{K: "Slice", Index: full})
+	if len(s) >= 2 {
+		ops = append(ops, ref.Op{K: "Transpose"}, ref.Op{K: "Flatten", Dim: len(s) - 1})
+	}
+	return ops
+}
+
 func checkC06(c *core.Ctx) {
+	sameOperandSequence(c, "sameoperand", [][]int{{3}, {2, 3}, {3, 2, 2}, {2, 1, 3}, {4, 5}}, c06Ops, true)
 	shapes := enum.ShapeSet(c.Thorough())
 	for _, s := range shapes {
 		if c.Expired() {
